@@ -232,55 +232,42 @@ impl fmt::Display for Formatted<'_, Number> {
                 if s.is_sign_negative() { "-" } else { "" }
             )
         } else {
-            let mut frac = s.fract();
+            let frac = s.fract().abs();
             let mut whole = s.trunc().abs();
-            let mut dec = String::with_capacity(if frac == 0. {
-                0
-            } else {
-                self.format.precision
-            });
+            let mut dec = String::new();
 
             if frac != 0. {
-                let max_decimals = 16 - whole.log10().ceil() as usize;
-                for _ in 1..max_decimals.min(self.format.precision) {
-                    frac *= 10.;
-                    write!(dec, "{}", (frac as i8).abs())?;
-                    frac = frac.fract();
-                    if frac == 0. {
-                        break;
+                let max_decimals =
+                    16_usize.saturating_sub(whole.log10().ceil() as usize);
+                let n = max_decimals.min(self.format.precision);
+                // The fraction is an exact multiple of 2^-k, so it has
+                // an exact decimal expansion of k digits.
+                let exp = ((frac.to_bits() >> 52) & 0x7ff).max(1) as usize;
+                let k = (1075 - exp).max(n + 1);
+                let exact = format!("{frac:.k$}");
+                let digits = &exact.as_bytes()[2..];
+                let mut kept = digits[..n].to_vec();
+                if digits[n] >= b'5' {
+                    // Round half away from zero, with carry.
+                    let mut i = n;
+                    loop {
+                        if i == 0 {
+                            whole += 1.;
+                            break;
+                        }
+                        i -= 1;
+                        if kept[i] == b'9' {
+                            kept[i] = b'0';
+                        } else {
+                            kept[i] += 1;
+                            break;
+                        }
                     }
                 }
-                if frac != 0. {
-                    let end = (frac * 10.).round().abs() as u8;
-                    if end == 10 {
-                        loop {
-                            match dec.pop() {
-                                Some('9') => (),
-                                None => {
-                                    whole += 1.;
-                                    break;
-                                }
-                                Some(c) => {
-                                    dec.push(char::from(c as u8 + 1));
-                                    break;
-                                }
-                            }
-                        }
-                    } else if end == 0 {
-                        loop {
-                            match dec.pop() {
-                                Some('0') => (),
-                                None => break,
-                                Some(c) => {
-                                    dec.push(c);
-                                    break;
-                                }
-                            }
-                        }
-                    } else {
-                        write!(dec, "{end}")?;
-                    }
+                while kept.last() == Some(&b'0') {
+                    kept.pop();
                 }
+                dec.extend(kept.into_iter().map(char::from));
             }
 
             if s.is_sign_negative() && (whole != 0. || !dec.is_empty()) {
